@@ -110,6 +110,9 @@ package js
 //@        result == EqEqToken || result == NotEqToken || result == LtEqToken || result == GtEqToken || result == AddEqToken || result == SubEqToken || result == MulEqToken || result == DivEqToken || result == ModEqToken || result == BitAndEqToken || result == BitOrEqToken || result == BitXorEqToken
 
 //@ func Lexer.consumeIdentifierToken
+// ID_Start is Lu Ll Lt Lm Lo Nl and Other_ID_Start (seven classes), ID_Continue adds Mn Mc Nd Pc and Other_ID_Continue
+// (eleven): the class lists are complete in number (which class each entry is belongs to package unicode)
+//@   ensures[F,C06] @id-class-count: old(len(identifierStart) == 7 && len(identifierContinue) == 11)
 //@   ensures[F,C06] @id-start: result ==> identifierStartTable[old(l.r.buf[l.r.pos])] || old(l.r.buf[l.r.pos]) >= 0xC0 || (old(l.r.buf[l.r.pos]) == '\\' && old(l.r.buf[l.r.pos+1]) == 'u')
 //@   preserves[S] jlStep(l)
 //@   ensures[S]  !result ==> l.r.pos == old(l.r.pos)
